@@ -384,6 +384,10 @@ def r3_intervals(ctx):
     muts = [x for x in walk_shallow(fn) if isinstance(x, ast.Call) and isinstance(x.func, ast.Attribute) and x.func.attr in
             ("append", "pop", "insert", "remove", "extend", "clear") and unparse(x.func.value) == LST]
     ctx.ob("C05.R3", RND, "CobaRandom.shuffle", fn, "no other write adds, drops or overwrites an element", not other and not muts, stmt="no other list writes")
+    srets = [r for r in walk_shallow(fn) if isinstance(r, ast.Return)]
+    ctx.ob("C05.R3", RND, "CobaRandom.shuffle", srets[0] if srets else fn, "every return (including the short-input early return) hands back the shuffled list itself",
+           bool(srets) and all(r.value is not None and unparse(r.value) == LST for r in srets), detail={"returns": [unparse(r.value) if r.value is not None else None for r in srets]},
+           stmt="shuffle returns the list")
     lv = assigned_value(fn, LST)
     ctx.ob("C05.R3", RND, "CobaRandom.shuffle", fn, "the shuffled list is the input (inplace) or list(items)",
            len(lv) == 1 and unparse(lv[0]) == "items if inplace else list(items)", stmt="l := items|list(items)")
@@ -573,6 +577,7 @@ def r4_consumers(ctx, rule="C05.R4"):
 
 
 CONTROLS = [
+    ("shuffle early return of the input", RND, M.replace_stmt("CobaRandom.shuffle", M.text_has("if n < 2"), "if n < 2:\n    return items"), "C05.R3"),
     ("reservoir index off by one", "coba/pipes/filters.py", M.replace_expr("Reservoir.filter", "int(r3 * count)", "int(r3 * count) + 1"), "C05.R3"),
     ("module state in method", RND, M.replace_expr("CobaRandom.random", "next(self._randu)", "next(_random._randu)"), "C05.R1"),
     ("randint b-a+2", RND, M.replace_expr("CobaRandom.randint", "b - a + 1", "b - a + 2"), "C05.R3"),
